@@ -406,7 +406,9 @@ func c04Run(c *c04Case, carrier string, rep int) *c04Obs {
 				if e := step(fmt.Sprintf("send:%d", j)); e != nil {
 					return e
 				}
-				stream.SendMsg(c04Resp(j))
+				if serr := stream.SendMsg(c04Resp(j)); serr != nil && c.Attitude == "return-send-err" {
+					return serr // what most handlers do: hand the send error back
+				}
 			}
 		} else {
 			grpc.SetHeader(ctx, c04Hdr)
@@ -758,7 +760,7 @@ func c04Points(carrier, kind string, nreq, nresp int, attitude string) []string 
 func genC04(t *rapid.T) c04Case {
 	c := c04Case{Carrier: rapid.SampledFrom(sutCarriers).Draw(t, "carrier"), Kind: rapid.SampledFrom(allKinds).Draw(t, "kind")}
 	c.Mode = rapid.SampledFrom([]string{"cancel", "cancel", "deadline"}).Draw(t, "mode")
-	c.Attitude = rapid.SampledFrom([]string{"ignore", "ignore", "return-ctx-err", "block"}).Draw(t, "attitude")
+	c.Attitude = rapid.SampledFrom([]string{"ignore", "ignore", "return-ctx-err", "block", "return-send-err"}).Draw(t, "attitude")
 	c.NReq = rapid.IntRange(0, 3).Draw(t, "nreq")
 	c.NResp = rapid.IntRange(0, 3).Draw(t, "nresp")
 	if c.Kind == kClientStream {
@@ -792,7 +794,7 @@ func c04Grid() []c04Case {
 	for _, car := range sutCarriers {
 		for _, kind := range allKinds {
 			for _, mode := range []string{"cancel", "deadline"} {
-				for _, att := range []string{"ignore", "return-ctx-err", "block"} {
+				for _, att := range []string{"ignore", "return-ctx-err", "block", "return-send-err"} {
 					for nreq := 0; nreq <= 2; nreq++ {
 						for nresp := 0; nresp <= 2; nresp++ {
 							if (kind == kUnary || kind == kClientStream) && nresp != 1 {
